@@ -46,6 +46,13 @@ func NewErrMultipleCommandsStatements() error {
 	return psqlerr.WithSeverity(psqlerr.WithCode(err, codes.Syntax), psqlerr.LevelError)
 }
 
+// NewErrUnsupportedFormatCode is returned whenever a Bind message contains a
+// parameter or result format code other than text (0) or binary (1).
+func NewErrUnsupportedFormatCode(format FormatCode) error {
+	err := fmt.Errorf("unsupported format code: %d", format)
+	return psqlerr.WithSeverity(psqlerr.WithCode(err, codes.ProtocolViolation), psqlerr.LevelError)
+}
+
 // newErrClientCopyFailed is returned whenever the client aborts a copy operation.
 func newErrClientCopyFailed(desc string) error {
 	err := fmt.Errorf("client aborted copy: %s", desc)
@@ -443,6 +450,20 @@ func (srv *Session) handleBind(ctx context.Context, reader *buffer.Reader, write
 	formats, err := srv.readColumnTypes(reader)
 	if err != nil {
 		return err
+	}
+
+	// NOTE: only the text and binary format codes are defined, any other code
+	// would be announced to the client inside the row description as is.
+	for _, parameter := range parameters {
+		if parameter.format != TextFormat && parameter.format != BinaryFormat {
+			return srv.extendedError(writer, NewErrUnsupportedFormatCode(parameter.format))
+		}
+	}
+
+	for _, format := range formats {
+		if format != TextFormat && format != BinaryFormat {
+			return srv.extendedError(writer, NewErrUnsupportedFormatCode(format))
+		}
 	}
 
 	stmt, err := srv.Statements.Get(ctx, statement)
